@@ -609,14 +609,14 @@ PROPS = {
                 outside="content of NAS PDUs / QFI lists longer than 64 / 16 octets is zero (only the length handling is exercised there); the 5G_QOS_INFO length octet is read as counting the whole value including itself (what the code emits and free5GC peers parse; TS 24.502 cannot be consulted offline)",
                 assumptions=["net.ParseIP is evaluated concretely by the engine (real standard-library function on the constant strings)"]),
 
-    "C09": dict(jobs=c09_jobs, claim="Ground queries: the parsed modulus of both groups equals the RFC prime computed (not copied) from its defining formula with 900-digit pi, generator 2, modulus length 128 / 256. With big.Int.Exp uninterpreted (modexp < m for m > 0; modexp(modexp(g,a),b) = modexp(modexp(g,b),a)): for every exponent x < 2^2048 and peer value y < 2^2056, GetPublicValue / GetSharedKey return exactly the modulus-length big-endian image of 2^x / y^x mod p - the executor forks over every possible minimal length of the result, so leading zero octets are covered for every value; both parties' shared secrets agree; a generated exponent is the value delivered by the random source in that call, lies in [2^128, 2^2048), a second call returns a later draw, and a failing source at either call (and inside NewIKESAKey) gives an error and no key.",
+    "C09": dict(jobs=c09_jobs, claim="Ground queries: the parsed modulus of both groups equals the RFC prime computed (not copied) from its defining formula with 900-digit pi, generator 2, modulus length 128 / 256. With big.Int.Exp uninterpreted (modexp < m for m > 0; modexp(modexp(g,a),b) = modexp(modexp(g,b),a)): for every exponent x < 2^2048 and peer value y < 2^2056, GetPublicValue / GetSharedKey return exactly the modulus-length big-endian image of 2^x / y^x mod p - the executor forks over every possible minimal length of the result, so leading zero octets are covered for every value; both parties' shared secrets agree; GetPublicValue / GetSharedKey leave their big.Int operands unchanged; a generated exponent consists of the last 2048 bits the random source delivered during that call (however many reads, rejected draws included), lies in [2^128, 2^2048), a second call returns a later draw, and a failing source at either call (and inside NewIKESAKey) gives an error and no key.",
                 bounds=lambda t: "group 2: all 129 minimal lengths of the result; group 14: %s; agreement under the assumption of full-length public and shared values; exponent rejection loop unwound twice (unwinding assumption: termination is probabilistic)" % ("minimal lengths {256,255,254,128,1,0}" if t == "quick" else "all 257 minimal lengths"),
                 outside="that math/big.Exp computes modular exponentiation and that two draws of the system source differ (trusted contracts of the standard library)",
-                assumptions=["math/big.Int.Exp is an uninterpreted function with modexp(b,e,m) < m and commutation in the exponents; SetString/SetBytes/Bytes/Cmp are modelled on 2176-bit vectors", "crypto/rand.Int returns a fresh symbolic value below its bound, or fails at the injected call"]),
+                assumptions=["math/big.Int.Exp is an uninterpreted function with modexp(b,e,m) < m and commutation in the exponents; SetString/SetBytes/Bytes/Cmp are modelled on 2176-bit vectors", "crypto/rand.Int returns a fresh symbolic value below its bound, or fails at the injected call", "a direct Read on crypto/rand.Reader fills the buffer, fails at the injected call, or - only the first such call on a path - delivers 1 or n-1 octets without error (io.Reader's contract); crypto/rand.Read and io.ReadFull always fill", "big.Int.BitLen is evaluated on constants only"]),
 
     "C11": dict(jobs=c11_jobs, claim="Exhaustive over the advertised names (3 encr, 3 integ, 3 prf, 2 dh, 2 esn; IKE and Child variants), directly and through a real SA Marshal/Unmarshal: ToTransform gives the registry identifier and attribute of an independent IANA/RFC table, DecodeTransform gives back the same descriptor, lengths match the RFC table. The universal part is one solver query per decode function instead of 65536 identifiers: for a transform with symbolic identifier and symbolic attribute (absent / TV with symbolic type and value / TLV), directly and after the wire, result != nil implies exactly the advertised (identifier, key-length attribute type 14 in TV form, value in {128,192,256}, matching key size); a single-choice proposal with one foreign transform makes NewIKESAKey / NewChildSAKeyByProposal fail.",
-                bounds=lambda t: "all advertised names; symbolic identifier x attribute forms {absent, TV, TLV of 1..3 octets}; foreign transform in each of the 4 positions of an IKE / Child proposal",
-                outside="TLV values longer than 3 octets; proposals with several transforms per type (the library reads the first)",
+                bounds=lambda t: "all advertised names; symbolic identifier x attribute forms {absent, TV, TLV of 1..3 octets; for the encryption transform through the wire also TLV of 16, 24, 32, 128, 192, 256 octets}; foreign transform in each of the 4 positions of an IKE / Child proposal",
+                outside="other TLV value lengths; proposals with several transforms per type (the library reads the first)",
                 assumptions=["NewIKESAKey with a foreign integrity transform runs the Diffie-Hellman step before it fails: there the public and shared values are assumed to have no leading zero octet and the exponent rejection loop is unwound twice (unwinding assumption); C09 decides those cases"] + CRYPTO_ASSUME),
 
     "C12": dict(jobs=c12_jobs, claim="For every byte string up to the bound (arbitrary content, per payload body decoder, per EAP packet, and whole datagrams including chains with unsupported payloads): decode ok and encode ok imply that the re-encoding decodes to an equal value and encodes to itself (fixed point after one step); canonical datagrams of the independent encoder (zero reserved bits, no unsupported payloads, exact lengths, transforms grouped by ascending type) re-encode byte-identically. Loops are unrolled (the contents of what was decoded matter), and re-encoding concretises symbolic field lengths by solver enumeration, which is what limits the bound.",
